@@ -133,7 +133,7 @@ PROPS["C19"] = {
 import json as _json, os as _os
 _SHAPES = _json.load(open(_os.path.join(_os.path.dirname(_os.path.abspath(__file__)), "shapes.json")))
 # quick tier: the shapes of G(2,3,2,3) with the most symbolic slots and those mixing empty productions
-_QUICK_SHAPES = {"g23_a22_b2", "g23_a21_b2", "g23_a20_b2", "g23_a2_b22", "g23_a2_b21", "g23_a2_b20",
+_QUICK_SHAPES = {"g34_a22_b1_c0", "g23_a22_b2", "g23_a21_b2", "g23_a20_b2", "g23_a2_b22", "g23_a2_b21", "g23_a2_b20",
                  "g23_a22_b0", "g23_a1_b20", "g23_a21_b1", "g23_a1_b21"}
 
 
@@ -221,10 +221,13 @@ PROPS["C12"] = {
         "trusted: Kani MIR->goto translation, CBMC, CaDiCaL, hooks yacc::parser::verif::*",
     ],
     "instances": [
-        I("c12::c12_ws_f3", bounds="3 free chars", termination=_SCANNERS, est_gb=10),
-        I("c12::c12_ws_block3", bounds="'/*' + 3 free chars", termination=_SCANNERS, est_gb=10),
-        I("c12::c12_ws_line3", bounds="'//' + 3 free chars", termination=_SCANNERS, est_gb=10),
-        I("c12::c12_ws_mb", bounds="widths [1,2,1,1]", termination=_SCANNERS, est_gb=10),
+        I("c12::c12_ws_f3", bounds="3 free chars", termination=_SCANNERS, est_gb=5),
+        I("c12::c12_ws_block2", bounds="'/*' + 2 free chars", termination=_SCANNERS, est_gb=6),
+        I("c12::c12_ws_line2", bounds="'//' + 2 free chars", termination=_SCANNERS, est_gb=6),
+        I("c12::c12_ws_mb3", bounds="widths [1,2,1]", termination=_SCANNERS, est_gb=6),
+        I("c12::c12_ws_block3", "thorough", bounds="'/*' + 3 free chars", termination=_SCANNERS, est_gb=10),
+        I("c12::c12_ws_line3", "thorough", bounds="'//' + 3 free chars", termination=_SCANNERS, est_gb=10),
+        I("c12::c12_ws_mb", "thorough", bounds="widths [1,2,1,1]", termination=_SCANNERS, est_gb=10),
         I("c12::c12_ws_f4", "thorough", bounds="4 free chars", termination=_SCANNERS, est_gb=10),
         I("c12::c12_ws_block4", "thorough", bounds="'/*' + 4 free chars", termination=_SCANNERS, est_gb=10),
         I("c12::c12_ws_f5", "thorough", bounds="5 free chars", termination=_SCANNERS, est_gb=10),
@@ -251,7 +254,7 @@ PROPS["C12"] = {
 PROPS["C10"] = {
     "functions_encoded": ["cfgrammar::yacc::parser::YaccParser::{new, parse_ws, mk_error}"],
     "bounds": {
-        "quick": "texts of a concrete prefix (none, '/*', '//') followed by 2..3 characters, each a free choice "
+        "quick": "texts of a concrete prefix (none, '/*', '/**', '//') followed by 2..3 characters, each a free choice "
                  "from {space, LF, '/', '*', 'a'} (3-character instance also tab and CR) or a fixed 3-byte "
                  "character; start offset a free character boundary; newline flag free; unwind = bytes + 2",
         "thorough": "as quick plus 4 free characters after the prefix and 5 free characters without prefix",
@@ -268,12 +271,15 @@ PROPS["C10"] = {
         "trusted: Kani MIR->goto translation, CBMC, CaDiCaL, hook yacc::parser::verif::parse_ws",
     ],
     "instances": [
-        I("c12::c10_ws_f3", bounds="3 free chars over 7-letter alphabet", termination=_SCANNERS, est_gb=10),
-        I("c12::c10_ws_block2", bounds="'/*' + 2 free chars", termination=_SCANNERS, est_gb=10),
-        I("c12::c10_ws_block3", bounds="'/*' + 3 free chars", termination=_SCANNERS, est_gb=10),
-        I("c12::c10_ws_line3", bounds="'//' + 3 free chars", termination=_SCANNERS, est_gb=10),
-        I("c12::c10_ws_mb", bounds="widths [1,1,3,1]", termination=_SCANNERS, est_gb=10),
-        I("c12::c10_ws_witness", bounds="reachability twin", expect_fail=True, est_gb=10),
+        I("c12::c10_ws_f3", bounds="3 free chars over 7-letter alphabet", termination=_SCANNERS, est_gb=5),
+        I("c12::c10_ws_block2", bounds="'/*' + 2 free chars", termination=_SCANNERS, est_gb=6),
+        I("c12::c10_ws_star2", bounds="'/**' + 2 free chars", termination=_SCANNERS, est_gb=6),
+        I("c12::c10_ws_line2", bounds="'//' + 2 free chars", termination=_SCANNERS, est_gb=6),
+        I("c12::c10_ws_witness", bounds="reachability twin ('/*' + 2 free chars)", expect_fail=True, est_gb=6),
+        I("c12::c10_ws_block3", "thorough", bounds="'/*' + 3 free chars", termination=_SCANNERS, est_gb=10),
+        I("c12::c10_ws_star3", "thorough", bounds="'/**' + 3 free chars", termination=_SCANNERS, est_gb=10),
+        I("c12::c10_ws_line3", "thorough", bounds="'//' + 3 free chars", termination=_SCANNERS, est_gb=10),
+        I("c12::c10_ws_mb", "thorough", bounds="widths [1,1,3,1]", termination=_SCANNERS, est_gb=10),
         I("c12::c10_ws_f4", "thorough", bounds="4 free chars", termination=_SCANNERS, est_gb=10),
         I("c12::c10_ws_block4", "thorough", bounds="'/*' + 4 free chars", termination=_SCANNERS, est_gb=10),
         I("c12::c10_ws_f5", "thorough", bounds="5 free chars", termination=_SCANNERS, est_gb=10),
